@@ -65,6 +65,12 @@ Section C19.
     clip_shapes RMath sk vb l = Ok out -> Forall (fun s' => In s' l \/ s_d s' <> []) out.
   Proof. exact (clip_shapes_nonempty sk vb l out). Qed.
 
+  (* order unchanged: the clipped document lists the surviving shapes in the source's painting order *)
+  Theorem C19_painting_order_is_kept (vb : Rct) (l out : list shapeR) :
+    clip_shapes RMath sk vb l = Ok out ->
+    out = flat_map (fun sh => match clip_shape RMath sk vb sh with Ok (Some s) => [s] | _ => [] end) l.
+  Proof. exact (clip_shapes_keeps_order sk vb l out). Qed.
+
   Theorem C19_kept_shape_is_cut_at_the_border (vb : Rct) (sh sh' : shapeR) r bbox :
     (0 <= Rect_w vb)%R -> (0 <= Rect_h vb)%R ->
     rule_of_string (s_fill_rule sh) = Some r -> shape_bbox RMath sk sh = Ok bbox ->
@@ -78,5 +84,5 @@ Section C19.
 End C19.
 
 Definition C19_all := (C19_rect_intersection_is_overlap, C19_rect_intersection_none_iff_no_area, C19_rect_union_is_least_box,
-  C19_dropped_shape_had_nothing_inside, C19_kept_shape_has_geometry, C19_clipped_document_has_no_empty_shape, C19_kept_shape_is_cut_at_the_border).
+  C19_dropped_shape_had_nothing_inside, C19_kept_shape_has_geometry, C19_clipped_document_has_no_empty_shape, C19_painting_order_is_kept, C19_kept_shape_is_cut_at_the_border).
 Print Assumptions C19_all.
